@@ -369,6 +369,7 @@ Definition access_list (l i : value) : res value :=
       match i with
       | VInt z =>
           if z <? 0 then Err None
+          else if Z.of_nat (length items) <=? z then Err None      (* also keeps Z.to_nat small *)
           else match nth_error items (Z.to_nat z) with Some v => Ok v | None => Err None end
       | VErrText _ => Unsup
       | _ => Err None
